@@ -78,13 +78,25 @@ package raft
 //@ func (*value).get
 //@   inline
 
+//@ pure NoCfgIn(s *storage, lo uint64, hi uint64) bool = forall(j, lo < j && j <= hi ==> s.gtyp[j] != entryConfig)
 //@ func openStorage
 // Log.Get(LastIndex) cannot fail when Count() > 0: its error branch is dead defensive code
 //@   dead opError#2 LastIndex#3
+// what done() publishes (C12): a label names its own index, and its membership is not newer than that index
+//@   requires [PA-disk.labels] DiskLabelInv(pjoin(dir, "snapshots")) && forall(i, fs[mfile(pjoin(dir, "snapshots"), i)] ==> lCfgIdx[mfile(pjoin(dir, "snapshots"), i)] <= i)
 //@   requires [C10.disk-contiguous] dlogPrev(pjoin(dir, "log")) == 0 || exists(i, fs[mfile(pjoin(dir, "snapshots"), i)] && dlogPrev(pjoin(dir, "log")) <= i)
 //@   modifies *
 //@   maypanic OpError
 //@   ensures result1 != nil ==> result0 == nil
 //@   ensures [C10.recover-contiguous] result1 == nil ==> result0 != nil && result0.snaps != nil && result0.log != nil && result0.snaps.index <= result0.log.glast && result0.log.glast == result0.lastLogIndex && result0.snaps.index <= result0.lastLogIndex
 //@   ensures [C10.recover-prev] result1 == nil && result0.snaps.index != 0 ==> result0.log.gprev <= result0.snaps.index
+// C12/C19: after a restart the membership is the newest configuration entry of the log suffix, else the
+// one in the snapshot label; the committed one is the entry before it, else the label's
+//@   ensures [C12+C19.restart-latest-from-log] result1 == nil && result0.configs.Latest.Index > result0.snaps.index ==> result0.configs.Latest.Index <= result0.lastLogIndex && result0.gtyp[result0.configs.Latest.Index] == entryConfig && NoCfgIn(result0, result0.configs.Latest.Index, result0.lastLogIndex)
+//@   ensures [C12+C19.restart-latest-from-label] result1 == nil && NoCfgIn(result0, result0.snaps.index, result0.lastLogIndex) ==> result0.configs.Latest == meta.config && result0.configs.Committed == meta.config
+//@   ensures [C12+C19.restart-committed-from-log] result1 == nil && result0.configs.Committed.Index > result0.snaps.index && result0.configs.Latest.Index > result0.snaps.index ==> result0.configs.Committed.Index < result0.configs.Latest.Index && result0.gtyp[result0.configs.Committed.Index] == entryConfig && NoCfgIn(result0, result0.configs.Committed.Index, result0.configs.Latest.Index - 1)
+//@   ensures [C12+C19.restart-committed-from-label] result1 == nil && result0.configs.Latest.Index > result0.snaps.index && NoCfgIn(result0, result0.snaps.index, result0.configs.Latest.Index - 1) ==> result0.configs.Committed == meta.config
+//@   loop 1 invariant err == nil && i >= s.snaps.index
+//@   loop 1 invariant need == 2 ==> NoCfgIn(s, i, s.lastLogIndex)
+//@   loop 1 invariant need == 1 ==> s.configs.Latest.Index > i && s.configs.Latest.Index <= s.lastLogIndex && s.gtyp[s.configs.Latest.Index] == entryConfig && NoCfgIn(s, s.configs.Latest.Index, s.lastLogIndex) && NoCfgIn(s, i, s.configs.Latest.Index - 1)
 //@   loop 1 invariant s != nil && s.log != nil && s.snaps != nil && s.snaps.index <= s.log.glast && s.log.glast == s.lastLogIndex && s.snaps.index <= s.lastLogIndex && (s.snaps.index != 0 ==> s.log.gprev <= s.snaps.index) && i <= s.lastLogIndex && need >= 1 && need <= 2
